@@ -97,7 +97,9 @@ theorem storageFindLoose_cid (cs : List PClient) (ls : Leases) (c : Bytes) :
 
 theorem storageFindLoose_ip (cs : List PClient) (ls : Leases) (a : Bytes) :
     storageFindLoose cs ls (.ip a) =
-      (match storageFind cs ls (.ip a) with | some c => some c | none => byIPZoned cs a) := by
+      (match storageFind cs ls (.ip a) with
+       | some c => some c
+       | none => if (macByIP ls a).isSome then none else byIPZoned cs a) := by
   simp only [storageFindLoose]
   cases storageFind cs ls (.ip a) <;> simp [Option.orElse]
 
@@ -112,7 +114,7 @@ some zone. -/
 def modelOwnerL (cs : List PClient) (ls : Leases) (cid a : Bytes) : Option PClient :=
   match modelOwner cs ls cid a with
   | some c => some c
-  | none => byIPZoned cs a
+  | none => if (macByIP ls a).isSome then none else byIPZoned cs a
 
 /-- The owner the statistics' checker uses. -/
 def statOwner (loose : Bool) (cs : List PClient) (ls : Leases) (cid a : Bytes) : Option PClient :=
@@ -140,12 +142,12 @@ theorem shouldCountClient_eq (loose : Bool) (cs : List PClient) (ls : Leases) (c
       | none =>
         cases h2 : storageFind cs ls (.ip a) with
         | some c => simp
-        | none => cases h3 : byIPZoned cs a <;> simp
+        | none => cases h4 : (macByIP ls a).isSome <;> cases h3 : byIPZoned cs a <;> simp
     · rw [if_neg hc, if_neg hc]
       simp only [shouldCountClient, if_true, storageFindLoose_ip]
       cases h2 : storageFind cs ls (.ip a) with
       | some c => simp
-      | none => cases h3 : byIPZoned cs a <;> simp
+      | none => cases h4 : (macByIP ls a).isSome <;> cases h3 : byIPZoned cs a <;> simp
 
 theorem findMultiple_eq (cs : List PClient) (ls : Leases) (cid a : Bytes) :
     findMultiple cs ls (idsOf cid a) = (modelOwnerL cs ls cid a).map (·.ignLog) := by
@@ -158,12 +160,12 @@ theorem findMultiple_eq (cs : List PClient) (ls : Leases) (cid a : Bytes) :
     | none =>
       cases h2 : storageFind cs ls (.ip a) with
       | some c => simp
-      | none => cases h3 : byIPZoned cs a <;> simp
+      | none => cases h4 : (macByIP ls a).isSome <;> cases h3 : byIPZoned cs a <;> simp
   · rw [if_neg hc, if_neg hc]
     simp only [findMultiple, storageFindLoose_ip]
     cases h2 : storageFind cs ls (.ip a) with
     | some c => simp
-    | none => cases h3 : byIPZoned cs a <;> simp
+    | none => cases h4 : (macByIP ls a).isSome <;> cases h3 : byIPZoned cs a <;> simp
 
 /-- With the repair both stores attribute every request to the same client. -/
 theorem log_stat_same_owner (cs : List PClient) (ls : Leases) (cid a : Bytes) :
@@ -397,8 +399,8 @@ theorem modelOwner_isSome {cs : List PClient} {ls : Leases} {cid a : Bytes}
       exact ipStage_none hm
 
 /-- No zoned identifiers: nothing is identified through a zone. -/
-theorem zonedOwners_nil_of {cs : List PClient} (h : ∀ p ∈ cs, p.zips = []) (a z : Bytes) :
-    zonedOwners cs a z = [] := by
+theorem zonedOwners_nil_of {cs : List PClient} (h : ∀ p ∈ cs, p.zips = []) (ls : Leases) (a z : Bytes) :
+    zonedOwners cs ls a z = [] := by
   have : cs.filter (fun c => c.zips.any (·.1 == a)) = [] := by
     apply filter_eq_nil_of
     intro p hp
@@ -421,7 +423,7 @@ theorem ownersZ_found {cs : List PClient} {ls : Leases} {cid a z : Bytes} {f : P
       | none => rfl
       | some c => have := modelOwner_mem hm; rw [hoe] at this; simp at this
     unfold zonedOwners at hne hall
-    by_cases hz : (z != [] && (cs.filter (fun c => c.zips.any (·.1 == a))).all
+    by_cases hz : (z != [] && (macByIP ls a).isNone && (cs.filter (fun c => c.zips.any (·.1 == a))).all
         (fun c => c.zips.contains (a, z))) = true
     · simp only [hz, if_true] at hne hall
       cases hf : cs.find? (fun c => c.zips.any (·.1 == a)) with
@@ -431,7 +433,12 @@ theorem ownersZ_found {cs : List PClient} {ls : Leases} {cid a z : Bytes} {f : P
       | some o =>
         obtain ⟨hmem, hp⟩ := find?_mem_pred hf
         refine ⟨o, ?_, hall o (mem_filter_of hmem hp), fun h => absurd hoe h⟩
-        simp [modelOwnerL, hm, byIPZoned, hf]
+        have hl : (macByIP ls a).isSome = false := by
+          simp only [Bool.and_eq_true] at hz
+          cases hh : macByIP ls a with
+          | none => rfl
+          | some _ => rw [hh] at hz; simp at hz
+        simp [modelOwnerL, hm, byIPZoned, hf, hl]
     · simp only [hz] at hne
       simp at hne
   · have ho' : (ownersAt cs ls cid a).isEmpty = false := by simpa using ho
